@@ -948,9 +948,22 @@ func (ce *cenv) pseudo(name string, x *ast.CallExpr) (Val, bool) {
 	case "held": // held(mu)
 		p := ce.evalAddr(x.Args[0])
 		return ex.load(ce.st, p), true
-	case "ghost": // ghost(name)
-		id := x.Args[0].(*ast.Ident)
-		if v, ok := ex.ghostGet(ce.st, id.Name); ok {
+	case "sameip": // sameip(a, b): same address bytes and family (zones are not on the wire)
+		a, b := arg(0), arg(1)
+		return boolVal(and(eq(a.L[0], b.L[0]), eq(a.L[1], b.L[1]), eq(eq(a.L[2], "4"), eq(b.L[2], "4")), eq(eq(a.L[2], "0"), eq(b.L[2], "0")))), true
+	case "ghostaddr": // ghostaddr(ser.src): a netip.Addr recorded in ghost components
+		gname := types.ExprString(x.Args[0])
+		ex.initNetipTypes()
+		v := Val{T: netipAddrT}
+		for _, comp := range []string{"hi", "lo", "z"} {
+			key := "X|" + gname + "." + comp
+			ex.registerKey(key, sInt)
+			v.L = append(v.L, ex.heapGet(ce.st, key, sInt))
+		}
+		return v, true
+	case "ghost": // ghost(name) / ghost(ser.ttl)
+		gname := types.ExprString(x.Args[0])
+		if v, ok := ex.ghostGet(ce.st, gname); ok {
 			return v, true
 		}
 		ce.fail(x, "unknown ghost")
